@@ -55,6 +55,11 @@ def make(case):
         while (data.max() - data.min()) / kw["binsize"] > 4000:
             kw["binsize"] *= 2
         dt = rng.choice(["f8", "f4", "list"])
+        if rng.random() < .25 and n > 3:
+            # non-negative data holding +0.0 and -0.0 in both orders: equal values, i.e. ties in original order
+            data = np.abs(data)
+            z = rng.integers(0, n, size=max(2, n // 4))
+            data[z] = np.where(rng.random(z.size) < .5, 0.0, -0.0)
     elif fam == "single":
         data = np.array([rng.normal() * 10 if rng.random() < .5 else float(rng.integers(-5, 5))])
         kw["binsize"] = float(rng.choice([1, 0.5, 0.1, 3.3]))
